@@ -1,45 +1,296 @@
-(* C02 in the fixed-LIB class: no finality event, hence the finality monitor accepts. *)
+(* C01 (moving LIB) and C02: from the boolean scope of the statements to the hypotheses of
+   Proofs/Fk/MovingLibInv.v and MovingLibFin.v *)
 From BV Require Import Base.Prelude Model.Block Model.ForkDB Model.Forkable Spec.Consumer Spec.Universe
-  Spec.C01_Spec Spec.C02_Spec Spec.C04_Spec Proofs.C04_Proofs.
+  Spec.C01_Spec Spec.C01_Moving_Spec Spec.C02_Spec
+  Proofs.Fk.StoreFacts Proofs.Fk.WalkFacts Proofs.Fk.FixedLib Proofs.Fk.MovingLibInv Proofs.Fk.MovingLibFin Proofs.Fk.MovingLibDisc Proofs.Fk.FailPrefix Proofs.Fk.FailRun.
 Local Open Scope N_scope.
 
-Definition nu (e : event) : Prop := estep e = SNew \/ estep e = SUndo.
+(* ---- a well-formed history without empty parent ids ---- *)
+Section Wf.
+  Variable h : list block.
+  Hypothesis Hwf : wf_b h = true.
+  Hypothesis Hpar : forall b, In b h -> bparent b <> 0.
 
-Lemma fin_events_nu lib root inc : forall evs st st' n lst any stl,
-  Forall nu evs -> apply_all lib st evs = Some st' ->
-  fin_events lib root inc (mkFM st n lst any [] stl) evs = Some (mkFM st' n lst any [] stl).
+  Lemma wf_block_of b : In b h -> wf_block h b = true.
+  Proof. unfold wf_b in Hwf. rewrite forallb_forall in Hwf. apply Hwf. Qed.
+
+  Lemma lookup_self b : In b h -> lookup (bid b) h = Some b.
+  Proof.
+    intros Hb. pose proof (wf_block_of b Hb) as W. unfold wf_block in W.
+    apply andb_true_iff in W as [_ W]. destruct (lookup (bid b) h) as [b'|]; [|discriminate].
+    apply block_eqb_eq in W. congruence.
+  Qed.
+
+  Lemma bridge_id b : In b h -> bid b <> 0 /\ bparent b <> 0 /\ bid b <> bparent b.
+  Proof.
+    intros Hb. pose proof (wf_block_of b Hb) as W. unfold wf_block in W.
+    apply andb_true_iff in W as [W _]. apply andb_true_iff in W as [W _]. apply andb_true_iff in W as [W1 W2].
+    apply negb_true_iff, N.eqb_neq in W1. apply negb_true_iff, N.eqb_neq in W2.
+    pose proof (Hpar b Hb). auto.
+  Qed.
+
+  Lemma bridge_uniq x y : In x h -> In y h -> bid x = bid y -> x = y.
+  Proof.
+    intros Hx Hy E. pose proof (lookup_self x Hx) as Lx. pose proof (lookup_self y Hy) as Ly.
+    rewrite E in Lx. congruence.
+  Qed.
+
+  Lemma bridge_up x y : In x h -> In y h -> bparent x = bid y -> bnum y < bnum x.
+  Proof.
+    intros Hx Hy E. pose proof (wf_block_of x Hx) as W. unfold wf_block in W.
+    apply andb_true_iff in W as [W _]. apply andb_true_iff in W as [_ W].
+    rewrite E, (lookup_self y Hy) in W. apply N.ltb_lt. exact W.
+  Qed.
+
+  (* the parent walk of Spec/Universe.v is the complete walk *)
+  Definition ents : list entry := map (fun x => mkEntry x false) h.
+
+  Lemma chain_of_uchain : forall f b, In b h -> (below ents (bnum b) <= f)%nat ->
+    uchain h b (chain_of f h b).
+  Proof.
+    induction f as [|f IH]; intros b Hb Hf.
+    - cbn [chain_of]. constructor. destruct (lookup (bparent b) h) as [p|] eqn:Lp; [|reflexivity].
+      exfalso. destruct (lookup_sound _ _ _ Lp) as [Hp Hpid].
+      pose proof (bridge_up b p Hb Hp (eq_sym Hpid)) as Hlt.
+      pose proof (below_lt ents (mkEntry b false) (mkEntry p false)) as B. cbn [eb] in B.
+      assert (In (mkEntry p false) ents) by (unfold ents; apply (in_map (fun x => mkEntry x false)); exact Hp).
+      specialize (B H Hlt). lia.
+    - cbn [chain_of]. destruct (lookup (bparent b) h) as [p|] eqn:Lp; [|constructor; exact Lp].
+      destruct (lookup_sound _ _ _ Lp) as [Hp Hpid].
+      apply (uc_step h b p); [exact Lp|]. apply IH; [exact Hp|].
+      pose proof (bridge_up b p Hb Hp (eq_sym Hpid)) as Hlt.
+      pose proof (below_lt ents (mkEntry b false) (mkEntry p false)) as B. cbn [eb] in B.
+      assert (In (mkEntry p false) ents) by (unfold ents; apply (in_map (fun x => mkEntry x false)); exact Hp).
+      specialize (B H Hlt). lia.
+  Qed.
+
+  Lemma chain_uchain b : In b h -> uchain h b (Universe.chain h b).
+  Proof.
+    intros Hb. unfold Universe.chain. apply chain_of_uchain; [exact Hb|].
+    pose proof (below_le ents (bnum b)). unfold ents in *. rewrite map_length in *. exact H.
+  Qed.
+End Wf.
+
+(* ---- a configured starting LIB ---- *)
+Section Bridge.
+  Variable r0 : ref.
+  Variable h : list block.
+  Hypothesis Hscope : moving_scope_b r0 h = true.
+
+  Lemma scope_parts : wf_b h = true /\ lib_ok_b (LExcl r0) h = true /\ ri r0 <> 0 /\
+                      forall b, In b h -> moving_block_b r0 b = true.
+  Proof.
+    unfold moving_scope_b in Hscope. apply andb_true_iff in Hscope as [H1 H4]. apply andb_true_iff in H1 as [H1 H3].
+    apply andb_true_iff in H1 as [H1 H2].
+    split; [exact H1|]. split; [exact H2|]. split.
+    - apply negb_true_iff in H3. apply N.eqb_neq. exact H3.
+    - rewrite forallb_forall in H4. exact H4.
+  Qed.
+
+  Lemma mb_parts b : In b h ->
+    bparent b <> 0 /\ (bparent b = ri r0 -> rn r0 < bnum b) /\ (bid b = ri r0 -> bnum b = rn r0).
+  Proof.
+    intros Hb. destruct scope_parts as (_ & _ & _ & F). specialize (F b Hb). unfold moving_block_b in F.
+    apply andb_true_iff in F as [F F3]. apply andb_true_iff in F as [F1 F2].
+    apply negb_true_iff, N.eqb_neq in F1. split; [exact F1|]. split; intros E.
+    - rewrite E, N.eqb_refl in F2. apply N.ltb_lt. exact F2.
+    - rewrite E, N.eqb_refl in F3. apply N.eqb_eq. exact F3.
+  Qed.
+
+  Lemma m_wf : wf_b h = true.
+  Proof. apply scope_parts. Qed.
+
+  Lemma m_par b : In b h -> bparent b <> 0.
+  Proof. intros Hb. apply (mb_parts b Hb). Qed.
+
+  Lemma bridge_decl b : In b h -> decl_ok h r0 b.
+  Proof.
+    intros Hb. destruct scope_parts as (_ & Hok & _ & _). unfold lib_ok_b in Hok. rewrite forallb_forall in Hok.
+    specialize (Hok b Hb). unfold lib_ok_block, mode_root in Hok. apply andb_true_iff in Hok as [Hok _].
+    exists (Universe.chain h b). split; [apply (chain_uchain h m_wf m_par b Hb)|].
+    apply orb_true_iff in Hok as [Hex|Hlow].
+    - left. apply existsb_exists in Hex as (a & Ha & Hn). exists a. split; [exact Ha | apply N.eqb_eq; exact Hn].
+    - right. destruct (bparent (last (Universe.chain h b) b) =? ri r0); [apply N.leb_le | apply N.ltb_lt]; exact Hlow.
+  Qed.
+End Bridge.
+
+(* ---- discovery ---- *)
+Section BridgeDisc.
+  Variable h : list block.
+  Hypothesis Hscope : disc_scope_b h = true.
+
+  Lemma disc_parts : wf_b h = true /\ lib_ok_b LNone h = true /\ forall b, In b h -> bparent b <> 0.
+  Proof.
+    unfold disc_scope_b in Hscope. apply andb_true_iff in Hscope as [H1 H3]. apply andb_true_iff in H1 as [H1 H2].
+    split; [exact H1|]. split; [exact H2|]. rewrite forallb_forall in H3. intros b Hb.
+    specialize (H3 b Hb). apply negb_true_iff, N.eqb_neq in H3. exact H3.
+  Qed.
+
+  Lemma d_wf : wf_b h = true.
+  Proof. apply disc_parts. Qed.
+
+  Lemma d_par b : In b h -> bparent b <> 0.
+  Proof. apply disc_parts. Qed.
+
+  Lemma bridge_decl_none b : In b h -> decl_none h b.
+  Proof.
+    intros Hb. destruct disc_parts as (_ & Hok & _). unfold lib_ok_b in Hok. rewrite forallb_forall in Hok.
+    specialize (Hok b Hb). unfold lib_ok_block, mode_root in Hok. apply andb_true_iff in Hok as [Hok _].
+    exists (Universe.chain h b). split; [apply (chain_uchain h d_wf d_par b Hb)|].
+    apply orb_true_iff in Hok as [Hex|Hlow].
+    - left. apply existsb_exists in Hex as (a & Ha & Hn). exists a. split; [exact Ha | apply N.eqb_eq; exact Hn].
+    - right. apply N.ltb_lt. exact Hlow.
+  Qed.
+End BridgeDisc.
+
+Lemma rooted_of r0 m : rooted_mode r0 m -> rooted r0 m.
+Proof. intros H. exact H. Qed.
+
+(* the never-failing handler *)
+Lemma c01_moving_nofail cfg r0 m h :
+  c_fail_at cfg = None -> rooted_mode r0 m -> f_new (c_filter cfg) = true -> f_undo (c_filter cfg) = true ->
+  moving_scope_b r0 h = true ->
+  let t := fk_run cfg (fs_init m) h in
+  length t = length h /\ Forall (fun x => snd x = ROk) t /\
+  c01_discipline_b m t = true /\ c01_refeed_b [] h t = true /\ c01_error_b (c_fail_at cfg) 0 t = true.
 Proof.
-  induction evs as [|e evs IH]; intros st st' n lst any stl Hn Ha; cbn [fin_events apply_all] in *.
-  - injection Ha as <-. reflexivity.
-  - pose proof (Forall_inv Hn) as He. pose proof (Forall_inv_tail Hn) as Hn'.
-    destruct (apply_ev lib st e) as [st1|] eqn:A; [|discriminate].
-    unfold fin_step. destruct He as [-> | ->]; cbn [fm_stack fm_finals memN fm_nfinal fm_last fm_any fm_stalled]; rewrite A;
-      apply IH; assumption.
+  intros Hnofail Hm Hnew Hundo Hscope.
+  destruct (scope_parts r0 h Hscope) as (_ & _ & Hr0 & _).
+  exact (moving_lib_run h r0 cfg Hnofail Hnew Hundo
+           (bridge_id h (m_wf r0 h Hscope) (m_par r0 h Hscope)) (bridge_uniq h (m_wf r0 h Hscope)) (bridge_up h (m_wf r0 h Hscope)) Hr0
+           (fun y Hy => proj2 (proj2 (mb_parts r0 h Hscope y Hy)))
+           (fun x Hx => proj1 (proj2 (mb_parts r0 h Hscope x Hx)))
+           (bridge_decl r0 h Hscope)
+           m h (rooted_of r0 m Hm) (fun b Hb => Hb)).
 Qed.
 
-Lemma c04_step_nu r0 lr S b evs S' : c04_step r0 lr S b evs S' -> Forall nu evs /\ apply_all (ri r0) S evs = Some S'.
+Lemma c02_moving_nofail cfg r0 m h :
+  c_fail_at cfg = None -> rooted_mode r0 m -> f_new (c_filter cfg) = true -> f_undo (c_filter cfg) = true ->
+  f_irr (c_filter cfg) = true -> moving_scope_b r0 h = true ->
+  c02_b m h (fk_run cfg (fs_init m) h) = true.
 Proof.
-  intros H. split.
-  - eapply Forall_impl; [|exact (c04_step_fields _ _ _ _ _ _ H)]. intros e (_ & _ & _ & Hs & _). exact Hs.
-  - destruct H as (kept & undone & redone & fresh & _ & _ & _ & _ & Ha). exact Ha.
+  intros Hnofail Hm Hnew Hundo Hirr Hscope.
+  destruct (scope_parts r0 h Hscope) as (_ & _ & Hr0 & _).
+  exact (moving_lib_c02 h r0 cfg Hnofail Hnew Hundo Hirr
+           (bridge_id h (m_wf r0 h Hscope) (m_par r0 h Hscope)) (bridge_uniq h (m_wf r0 h Hscope)) (bridge_up h (m_wf r0 h Hscope)) Hr0
+           (fun y Hy => proj2 (proj2 (mb_parts r0 h Hscope y Hy)))
+           (fun x Hx => proj1 (proj2 (mb_parts r0 h Hscope x Hx)))
+           (bridge_decl r0 h Hscope)
+           m h (rooted_of r0 m Hm) (fun b Hb => Hb)).
 Qed.
 
-Lemma c04_run_fin r0 : forall h t seen S n lst any stl, c04_run r0 seen S h t ->
-  no_finality_events t /\ exists m, fin_trace (ri r0) r0 (mkFM S n lst any [] stl) h t = Some m.
+Lemma rooted_root_lib r0 m t : rooted_mode r0 m -> root_lib m t = ri r0 /\ root_ref m t = r0.
+Proof. intros [-> | ->]; split; reflexivity. Qed.
+
+Lemma rooted_ncalls r0 m : rooted_mode r0 m -> ncalls (fs_init m) = 0.
+Proof. intros [-> | ->]; reflexivity. Qed.
+
+Lemma c01_moving_lib_proved : c01_moving_lib_statement.
 Proof.
-  induction h as [|b h IH]; intros t seen S n lst any stl H.
-  - destruct t; [|destruct H]. split; [constructor | cbn; eauto].
-  - destruct t as [|[evs r] t]; [destruct H|]. cbn [c04_run] in H. destruct H as (_ & S' & Hstep & Hrun).
-    destruct (c04_step_nu _ _ _ _ _ _ Hstep) as [Hn Ha].
-    destruct (IH t (b :: seen) S' n lst any stl Hrun) as [IH1 IH2].
-    split; [constructor; [exact Hn | exact IH1]|].
-    cbn [fin_trace]. rewrite (fin_events_nu _ _ _ _ _ _ _ _ _ _ Hn Ha). exact IH2.
+  intros cfg r0 m h Hm Hnew Hundo Hscope.
+  destruct (c_fail_at cfg) as [k|] eqn:Hf.
+  - (* the handler fails at call k: cut the never-failing run *)
+    destruct (c01_moving_nofail (nofail cfg) r0 m h eq_refl Hm Hnew Hundo Hscope) as (Hlen & Hok & Hd & Hr & He).
+    unfold c01_discipline_b in Hd. rewrite (proj1 (rooted_root_lib r0 m _ Hm)) in Hd.
+    destruct (apply_all (ri r0) [] (all_events (fk_run (nofail cfg) (fs_init m) h))) as [S'|] eqn:Happ; [|discriminate].
+    destruct (run_fail_c01 cfg k Hf (ri r0) h (fs_init m) [] []) as ((S2 & Happ2) & Hre2 & Herr2 & Hres2).
+    + rewrite (rooted_ncalls r0 m Hm). lia.
+    + exact Hok.
+    + exists S'. exact Happ.
+    + exact Hr.
+    + unfold c01_statement. split; [|split; [exact Hres2 | intros H; discriminate]].
+      split; [|split].
+      * unfold c01_discipline_b. rewrite (proj1 (rooted_root_lib r0 m _ Hm)), Happ2. reflexivity.
+      * exact Hre2.
+      * rewrite Hf. rewrite (rooted_ncalls r0 m Hm) in Herr2. exact Herr2.
+  - destruct (c01_moving_nofail cfg r0 m h Hf Hm Hnew Hundo Hscope) as (Hlen & Hok & Hd & Hr & He).
+    unfold c01_statement. rewrite Hf in *. split; [repeat split; assumption|]. split.
+    + eapply Forall_impl; [|exact Hok]. cbn beta. auto.
+    + intros _. split; assumption.
 Qed.
 
-Lemma c02_fixed_lib_proved : c02_fixed_lib_statement.
+Lemma c02_moving_lib_proved : c02_moving_lib_statement.
 Proof.
-  intros cfg r0 h Hnofail Hincl Hnew Hundo Hscope.
-  destruct (c04_fixed_lib_proved cfg r0 h Hnofail Hincl Hnew Hundo Hscope) as (Hrun & _ & _).
-  destruct (c04_run_fin r0 h _ [] [] 0%nat r0 false [] Hrun) as [H1 [m H2]].
-  split; [exact H1|]. unfold c02_statement, c02_b. cbn [root_ref]. rewrite H2. reflexivity.
+  intros cfg r0 m h Hm Hnew Hundo Hirr Hscope. unfold c02_statement.
+  destruct (c_fail_at cfg) as [k|] eqn:Hf.
+  - pose proof (c02_moving_nofail (nofail cfg) r0 m h eq_refl Hm Hnew Hundo Hirr Hscope) as HN.
+    destruct (c01_moving_nofail (nofail cfg) r0 m h eq_refl Hm Hnew Hundo Hscope) as (_ & Hok & _).
+    unfold c02_b in *. rewrite (proj2 (rooted_root_lib r0 m (fk_run (nofail cfg) (fs_init m) h) Hm)) in HN.
+    rewrite (proj2 (rooted_root_lib r0 m (fk_run cfg (fs_init m) h) Hm)).
+    destruct (fin_trace (ri r0) r0 (mkFM [] 0 r0 false [] []) h (fk_run (nofail cfg) (fs_init m) h)) as [mN|] eqn:EN; [|discriminate].
+    destruct (run_fail_c02 cfg k Hf (ri r0) r0 h (fs_init m) (mkFM [] 0 r0 false [] [])) as [m' Hm'].
+    + rewrite (rooted_ncalls r0 m Hm). lia.
+    + exact Hok.
+    + exists mN. exact EN.
+    + rewrite Hm'. reflexivity.
+  - exact (c02_moving_nofail cfg r0 m h Hf Hm Hnew Hundo Hirr Hscope).
+Qed.
+
+(* ---- discovery mode ---- *)
+
+Lemma disc_nofail cfg h :
+  c_fail_at cfg = None -> c_hold cfg = true -> c_incl cfg = false ->
+  f_new (c_filter cfg) = true -> f_undo (c_filter cfg) = true -> disc_scope_b h = true ->
+  let t := fk_run cfg (fs_init LNone) h in
+  length t = length h /\ Forall (fun x => snd x = ROk) t /\
+  c01_discipline_b LNone t = true /\ c01_refeed_b [] h t = true /\
+  c01_error_b (c_fail_at cfg) 0 t = true /\
+  (f_irr (c_filter cfg) = true -> c02_b LNone h t = true).
+Proof.
+  intros Hnofail Hhold Hincl Hnew Hundo Hscope.
+  exact (disc_run h cfg Hnofail Hnew Hundo Hhold Hincl
+           (bridge_id h (d_wf h Hscope) (d_par h Hscope)) (bridge_uniq h (d_wf h Hscope)) (bridge_up h (d_wf h Hscope))
+           (bridge_decl_none h Hscope) h (fun b Hb => Hb)).
+Qed.
+
+Lemma c01_discovery_proved : c01_discovery_statement.
+Proof.
+  intros cfg h Hhold Hincl Hnew Hundo Hscope.
+  destruct (c_fail_at cfg) as [k|] eqn:Hf.
+  - destruct (disc_nofail (nofail cfg) h eq_refl Hhold Hincl Hnew Hundo Hscope) as (Hlen & Hok & Hd & Hr & He & _).
+    set (tN := fk_run (nofail cfg) (fs_init LNone) h) in *. set (t := fk_run cfg (fs_init LNone) h).
+    destruct (run_fail_events cfg k Hf h (fs_init LNone)) as [rest Hrest]; [cbn; lia | exact Hok|].
+    fold tN t in Hrest.
+    unfold c01_discipline_b in Hd.
+    destruct (apply_all (root_lib LNone tN) [] (all_events tN)) as [S'|] eqn:Happ; [|discriminate].
+    destruct (run_fail_c01 cfg k Hf (root_lib LNone tN) h (fs_init LNone) [] []) as ((S2 & Happ2) & Hre2 & Herr2 & Hres2).
+    + cbn. lia.
+    + exact Hok.
+    + exists S'. exact Happ.
+    + exact Hr.
+    + fold t in Happ2, Hre2, Herr2, Hres2.
+      unfold c01_statement. fold t. split; [|split; [exact Hres2 | intros H; discriminate]].
+      split; [|split; [exact Hre2 | rewrite Hf; exact Herr2]].
+      unfold c01_discipline_b. destruct (all_events t) as [|e l] eqn:Et.
+      * unfold root_lib. rewrite Et. reflexivity.
+      * assert (Hroot : root_lib LNone t = root_lib LNone tN).
+        { unfold root_lib. rewrite Hrest, Et. reflexivity. }
+        rewrite Hroot, Happ2. reflexivity.
+  - destruct (disc_nofail cfg h Hf Hhold Hincl Hnew Hundo Hscope) as (Hlen & Hok & Hd & Hr & He & _).
+    unfold c01_statement. rewrite Hf in *. split; [repeat split; assumption|]. split.
+    + eapply Forall_impl; [|exact Hok]. cbn beta. auto.
+    + intros _. split; assumption.
+Qed.
+
+Lemma c02_discovery_proved : c02_discovery_statement.
+Proof.
+  intros cfg h Hhold Hincl Hnew Hundo Hirr Hscope. unfold c02_statement.
+  destruct (c_fail_at cfg) as [k|] eqn:Hf.
+  - destruct (disc_nofail (nofail cfg) h eq_refl Hhold Hincl Hnew Hundo Hscope) as (_ & Hok & _ & _ & _ & HN).
+    specialize (HN Hirr).
+    set (tN := fk_run (nofail cfg) (fs_init LNone) h) in *. set (t := fk_run cfg (fs_init LNone) h).
+    destruct (run_fail_events cfg k Hf h (fs_init LNone)) as [rest Hrest]; [cbn; lia | exact Hok|].
+    fold tN t in Hrest.
+    unfold c02_b in *.
+    destruct (fin_trace (ri (root_ref LNone tN)) (root_ref LNone tN) (mkFM [] 0 (root_ref LNone tN) false [] []) h tN) as [mN|] eqn:EN; [|discriminate].
+    destruct (run_fail_c02 cfg k Hf (ri (root_ref LNone tN)) (root_ref LNone tN) h (fs_init LNone) (mkFM [] 0 (root_ref LNone tN) false [] [])) as [m' Hm'].
+    + cbn. lia.
+    + exact Hok.
+    + exists mN. exact EN.
+    + fold t in Hm'. destruct (all_events t) as [|e l] eqn:Et.
+      * rewrite (fin_trace_quiet _ _ h t _ (all_events_nil t Et)). reflexivity.
+      * assert (Hroot : root_ref LNone t = root_ref LNone tN).
+        { unfold root_ref. rewrite Hrest, Et. reflexivity. }
+        rewrite Hroot, Hm'. reflexivity.
+  - destruct (disc_nofail cfg h Hf Hhold Hincl Hnew Hundo Hscope) as (_ & _ & _ & _ & _ & HN). exact (HN Hirr).
 Qed.
